@@ -371,6 +371,89 @@ func (p c15Profile) render(r *rand.Rand, variant bool) string {
 	return b.String()
 }
 
+// amfDefaultsSx: the built-in prefix table (contexts.DefaultAMFContext) as the model's default context.
+func amfDefaultsSx() []sx.V {
+	defaults := []sx.V{}
+	dnames := []string{}
+	for k := range contexts.DefaultAMFContext {
+		dnames = append(dnames, k)
+	}
+	sort.Strings(dnames)
+	for _, k := range dnames {
+		if v, ok := contexts.DefaultAMFContext[k].(string); ok {
+			defaults = append(defaults, sx.L(sx.S(k), sx.S(v)))
+		}
+	}
+	return defaults
+}
+
+// modelItems reads the model's verdict answer: key "level|name|focus" -> message template.
+func modelItems(ans sx.V) map[string]string {
+	out := map[string]string{}
+	for _, it := range ans.List[1].List {
+		if it.IsL && len(it.List) == 4 {
+			out[it.List[0].Text()+"|"+it.List[1].Text()+"|"+it.List[2].Text()] = it.List[3].Text()
+		}
+	}
+	return out
+}
+
+// implItems: the same keys from a report, with the message shown.
+func implItems(report string) (map[string]string, bool) {
+	rep, err := ParseReport(report)
+	if err != nil {
+		return nil, false
+	}
+	out := map[string]string{}
+	for _, r := range rep.Results {
+		out[sevLevel(r.Severity)+"|"+r.Name+"|"+r.Focus] = r.Message
+	}
+	return out, true
+}
+
+// verdictDiff compares the model's verdict with the library's: the same (level, validation, focus) triples, and the
+// same message wherever the template is plain text (no placeholder, quote, backslash or percent sign: those are C13's).
+func verdictDiff(model, impl map[string]string) string {
+	for k, tmpl := range model {
+		msg, ok := impl[k]
+		if !ok {
+			return "the model reports " + k + ", the library does not"
+		}
+		if !strings.ContainsAny(tmpl, "{\"\\%\n") && msg != tmpl {
+			return fmt.Sprintf("message of %s: model %q, library %q", k, tmpl, msg)
+		}
+	}
+	for k := range impl {
+		if _, ok := model[k]; !ok {
+			return "the library reports " + k + ", the model does not"
+		}
+	}
+	return ""
+}
+
+func itemsText(m map[string]string) string {
+	l := []string{}
+	for k, v := range m {
+		l = append(l, k+"|"+v)
+	}
+	sort.Strings(l)
+	return strings.Join(l, "\n")
+}
+
+// renderPure: every mapping and free list shuffled, random styles, no prefix renamed.
+func (p c15Profile) renderPure(r *rand.Rand) string {
+	prefixes := map[string]string{}
+	for k, v := range p.prefixes {
+		prefixes[k] = v
+	}
+	t := p.tree(func(s string) string { return s }, prefixes)
+	t.shuffle(r)
+	var b strings.Builder
+	b.WriteString("#%Validation Profile 1.0\n")
+	t.block(r, &b, 0, []int{2, 2, 3, 4}[r.Intn(4)])
+	return b.String()
+}
+
 // yamlShape is (kind, tag, value) of a parsed YAML tree with mapping entries sorted: what the "same abstract tree"
 // assumption is about.
 func yamlShape(n *yaml3.Node) string {
@@ -433,52 +516,45 @@ func C15(e *core.Env) {
 		}
 		return g
 	}
-	defaults := []sx.V{}
-	dnames := []string{}
-	for k := range contexts.DefaultAMFContext {
-		dnames = append(dnames, k)
-	}
-	sort.Strings(dnames)
-	for _, k := range dnames {
-		if v, ok := contexts.DefaultAMFContext[k].(string); ok {
-			defaults = append(defaults, sx.L(sx.S(k), sx.S(v)))
-		}
-	}
+	defaults := amfDefaultsSx()
 	// modelVerdict: the Coq model of the profile parser + generator + evaluation, from the YAML tree as yaml.v3 parsed it
-	modelVerdict := func(profileText string, g Graph) (string, bool) {
+	modelVerdict := func(profileText string, g Graph) (map[string]string, bool) {
 		var doc yaml3.Node
 		if yaml3.Unmarshal([]byte(profileText), &doc) != nil || len(doc.Content) == 0 {
-			return "", false
+			return nil, false
 		}
 		y, ok := yamlSx(doc.Content[0])
 		if !ok {
-			return "", false
+			return nil, false
 		}
 		ans, err := e.Driver.Eval(sx.L(sx.A("c15"), sx.A("verdict"), sx.L(defaults...), y, g.Sx()))
 		if err != nil {
 			res.Violate("harness-error", err.Error(), map[string]any{"no_failing_input_found": true, "broken": "driver"})
-			return "", false
+			return nil, false
 		}
 		if ans.IsL && len(ans.List) == 2 && ans.List[0].Atom == "ok" {
-			items := []string{}
-			for _, it := range ans.List[1].List {
-				items = append(items, it.Text())
-			}
-			return strings.Join(items, "\n"), true
+			return modelItems(ans), true
 		}
 		res.Count("model-parser-answer=" + ans.Atom)
-		return "", false
+		return nil, false
 	}
-	implVerdict := func(report string) string {
-		rep, err := ParseReport(report)
+	// related: is the second text's tree a key / free-list reordering of the first's (YamlRewrite.related, sound for yrw)?
+	related := func(a, b string) (bool, bool) {
+		var da, db yaml3.Node
+		if yaml3.Unmarshal([]byte(a), &da) != nil || yaml3.Unmarshal([]byte(b), &db) != nil || len(da.Content) == 0 || len(db.Content) == 0 {
+			return false, false
+		}
+		ya, ok1 := yamlSx(da.Content[0])
+		yb, ok2 := yamlSx(db.Content[0])
+		if !ok1 || !ok2 {
+			return false, false
+		}
+		ans, err := e.Driver.Eval(sx.L(sx.A("c15"), sx.A("related"), ya, yb))
 		if err != nil {
-			return "unparsable"
+			res.Violate("harness-error", err.Error(), map[string]any{"no_failing_input_found": true, "broken": "driver"})
+			return false, false
 		}
-		items := map[string]bool{}
-		for _, r := range rep.Results {
-			items[sevLevel(r.Severity)+"|"+r.Name+"|"+r.Focus] = true
-		}
-		return strings.Join(sortedKeys(items), "\n")
+		return ans.Atom == "1", true
 	}
 	summary := func(report string) (string, int) {
 		rep, err := ParseReport(report)
@@ -561,9 +637,9 @@ func C15(e *core.Env) {
 			total += n
 			if mv, ok := modelVerdict(orig, graphs[len(refs)-1]); ok {
 				res.Count("model-parser-verdicts-compared")
-				if iv := implVerdict(out); iv != mv {
-					res.Violate("model-mismatch", "the verdict computed by the Coq model from the YAML tree (parser + generator + evaluation) differs from the library's",
-						map[string]any{"no_failing_input_found": true, "broken": "correspondence ProfileParser.verdict vs pkg.Validate", "profile": orig, "data": d, "impl": iv, "model": mv})
+				if iv, _ := implItems(out); verdictDiff(mv, iv) != "" {
+					res.Violate("model-mismatch", "the verdict computed by the Coq model from the YAML tree (parser + generator + evaluation) differs from the library's: "+verdictDiff(mv, iv),
+						map[string]any{"no_failing_input_found": true, "broken": "correspondence ProfileParser.verdict vs pkg.Validate", "profile": orig, "data": d, "impl": itemsText(iv), "model": itemsText(mv)})
 				}
 			}
 		}
@@ -574,6 +650,18 @@ func C15(e *core.Env) {
 		yaml3.Unmarshal([]byte(orig), &origTree)
 		for vi := 0; vi < k; vi++ {
 			variant := p.render(e.Rand, true)
+			if vi == 0 {
+				// a rewriting made of key / free-list reordering and styles only: an instance of the relation of
+				// C15_rewriting_at_any_depth, which the extracted test must recognise
+				variant = p.renderPure(e.Rand)
+				if rel, ok := related(orig, variant); ok {
+					res.Count("reordering-recognised-by-the-model")
+					if !rel {
+						res.Violate("model-mismatch", "a pure reordering of mapping keys and free lists is not recognised by YamlRewrite.related",
+							map[string]any{"no_failing_input_found": true, "broken": "correspondence: the harness's reordering vs the relation yrw of C15_rewriting_at_any_depth", "original_profile": orig, "rewritten_profile": variant})
+					}
+				}
+			}
 			replay := map[string]any{"original_profile": orig, "rewritten_profile": variant}
 			compiled, cerr := pkg.CompileProfile(variant, false, nil)
 			if cerr != nil {
@@ -599,9 +687,9 @@ func C15(e *core.Env) {
 				}
 				if mv, ok := modelVerdict(variant, graphs[di]); ok && di == 0 {
 					res.Count("model-parser-verdicts-compared")
-					if iv := implVerdict(out); iv != mv {
-						res.Violate("model-mismatch", "the verdict computed by the Coq model from the YAML tree of a rewritten profile differs from the library's",
-							map[string]any{"no_failing_input_found": true, "broken": "correspondence ProfileParser.verdict vs pkg.Validate", "profile": variant, "data": d, "impl": iv, "model": mv})
+					if iv, _ := implItems(out); verdictDiff(mv, iv) != "" {
+						res.Violate("model-mismatch", "the verdict computed by the Coq model from the YAML tree of a rewritten profile differs from the library's: "+verdictDiff(mv, iv),
+							map[string]any{"no_failing_input_found": true, "broken": "correspondence ProfileParser.verdict vs pkg.Validate", "profile": variant, "data": d, "impl": itemsText(iv), "model": itemsText(mv)})
 					}
 				}
 			}
@@ -893,22 +981,13 @@ func c15Text(e *core.Env, rc config.ReportConfiguration, summary func(string) (s
 					if gsx, gok := graphSx(norm); gok {
 						ans, derr := e.Driver.Eval(sx.L(sx.A("c15"), sx.A("verdict"), sx.L(defaults...), y, gsx))
 						if derr == nil && ans.IsL && len(ans.List) == 2 {
-							items := []string{}
-							for _, it := range ans.List[1].List {
-								items = append(items, it.Text())
-							}
-							rep, perr := ParseReport(out)
-							got := map[string]bool{}
-							if perr == nil {
-								for _, r := range rep.Results {
-									got[sevLevel(r.Severity)+"|"+r.Name+"|"+r.Focus] = true
-								}
-							}
+							mv := modelItems(ans)
+							iv, _ := implItems(out)
 							res.Count(stream + "-model-verdicts-compared")
-							if strings.Join(items, "\n") != strings.Join(sortedKeys(got), "\n") {
-								res.Violate("model-mismatch", fmt.Sprintf("the Coq model's verdict for %s differs from the library's", i),
+							if diff := verdictDiff(mv, iv); diff != "" {
+								res.Violate("model-mismatch", fmt.Sprintf("the Coq model's verdict for %s differs from the library's: %s", i, diff),
 									map[string]any{"no_failing_input_found": true, "broken": "correspondence ProfileParser.verdict vs pkg.Validate on " + stream + " profile",
-										"profile_from": where, "profile": string(ptxt), "data": core.Trunc(d, 4000), "model": items, "impl": sortedKeys(got)})
+										"profile_from": where, "profile": string(ptxt), "data": core.Trunc(d, 4000), "model": itemsText(mv), "impl": itemsText(iv)})
 							}
 						} else if derr == nil {
 							res.Count(stream + "-model-answer=" + ans.Atom)
@@ -925,12 +1004,31 @@ func c15Text(e *core.Env, rc config.ReportConfiguration, summary func(string) (s
 		}
 		for v := 0; v < n; v++ {
 			t := tree.clone()
-			aliasPrefixes(e.Rand, t)
+			if v > 0 {
+				aliasPrefixes(e.Rand, t)
+			}
 			t.shuffle(e.Rand)
 			var b strings.Builder
 			b.WriteString("#%Validation Profile 1.0\n")
 			t.block(e.Rand, &b, 0, []int{2, 4}[e.Rand.Intn(2)])
 			variant := b.String()
+			if v == 0 {
+				// keys and free lists reordered only: an instance of the relation of C15_rewriting_at_any_depth
+				var dv yaml3.Node
+				if yaml3.Unmarshal([]byte(variant), &dv) == nil && len(dv.Content) > 0 {
+					ya, ok1 := yamlSx(doc.Content[0])
+					yb, ok2 := yamlSx(dv.Content[0])
+					if ok1 && ok2 {
+						if ans, derr := e.Driver.Eval(sx.L(sx.A("c15"), sx.A("related"), ya, yb)); derr == nil {
+							res.Count(stream + "-reordering-recognised-by-the-model")
+							if ans.Atom != "1" {
+								res.Violate("model-mismatch", "a pure reordering of mapping keys and free lists of "+i+" is not recognised by YamlRewrite.related",
+									map[string]any{"no_failing_input_found": true, "broken": "correspondence: the harness's reordering vs the relation yrw of C15_rewriting_at_any_depth", "profile_from": where, "original_profile": string(ptxt), "rewritten_profile": variant})
+							}
+						}
+					}
+				}
+			}
 			for di, d := range datas {
 				out, err := pkg.ValidateWithConfiguration(variant, d, false, nil, clockA, rc)
 				replay := map[string]any{"profile_from": where, "original_profile": string(ptxt), "rewritten_profile": variant, "data_file": dnames[di]}
